@@ -17,6 +17,9 @@
 //	   wrong previous vector): no party may end with a shard for another key; the model's Round3
 //	   evaluated on the same deviation gives every victim's verdict (refuse / blame j), which the
 //	   implementation must not contradict by accepting or by blaming somebody else.
+//	P  refresh / recover / redistribute into a NON-IDEAL next structure where one previous holder alters ONE
+//	   component (first, middle, last) of the piece it sends to one next holder: the recipient rejects
+//	   (model: blames the sender) or, if it accepts, every post-step predicate still holds.
 //	R  an unqualified driving set is refused.
 package main
 
@@ -347,6 +350,9 @@ func (rn *runner[G, S]) checkEpoch(id, cs, stepDesc string, e *epoch[G, S], pk0 
 		var err error
 		if p := vh.Safely(func() { err = e.sch.Verify(sh.Share(), sh.VerificationVector()) }); p != "" || err != nil {
 			rn.propFail(id, "new-share-does-not-verify", fmt.Sprintf("%s: holder %d: %v %s", stepDesc, h, err, p), cs, what)
+		}
+		if bad := verifyIndependently(rn.c, e.m, sh.Share(), sh.VerificationVector()); bad != "" {
+			rn.propFail(id, "new-share-fails-feldman-equation", fmt.Sprintf("%s: holder %d: %s", stepDesc, h, bad), cs, what)
 		}
 		if !sh.MSP().Equal(e.m) {
 			rn.propFail(id, "shard-msp-differs", fmt.Sprintf("%s: holder %d shard MSP is not the next structure's", stepDesc, h), cs, what)
@@ -1484,7 +1490,7 @@ func (rn *runner[G, S]) runRefused(idx int) {
 // ---- main ---------------------------------------------------------------------------------------
 
 func runGroup[G algebra.PrimeGroupElement[G, S], S algebra.PrimeFieldElement[S]](c *gctx[G, S], a vh.Args, res *vh.Result,
-	nHist, maxLen, maxHolders, nZero, nDev, nRef int, only map[string]string, sign signFn[G, S]) {
+	nHist, maxLen, maxHolders, nZero, nDev, nPiece, nRef int, only map[string]string, sign signFn[G, S]) {
 	rn := &runner[G, S]{c: c, a: a, res: res, sign: sign}
 	var lines []string
 	var hcs []*histCase[G, S]
@@ -1513,6 +1519,11 @@ func runGroup[G algebra.PrimeGroupElement[G, S], S algebra.PrimeFieldElement[S]]
 			if dc := rn.runDeviation(idx); dc != nil {
 				dcs = append(dcs, dc)
 			}
+		case "P":
+			idx, _ := strconv.Atoi(only["idx"])
+			if dc := rn.runPieceTamper(idx); dc != nil {
+				dcs = append(dcs, dc)
+			}
 		case "R":
 			idx, _ := strconv.Atoi(only["idx"])
 			rn.runRefused(idx)
@@ -1533,6 +1544,11 @@ func runGroup[G algebra.PrimeGroupElement[G, S], S algebra.PrimeFieldElement[S]]
 		}
 		for i := 0; i < nDev; i++ {
 			if dc := rn.runDeviation(i); dc != nil {
+				dcs = append(dcs, dc)
+			}
+		}
+		for i := 0; i < nPiece; i++ {
+			if dc := rn.runPieceTamper(i); dc != nil {
 				dcs = append(dcs, dc)
 			}
 		}
@@ -1575,7 +1591,7 @@ func main() {
 	debug.SetGCPercent(200) // the protocol code allocates heavily; the harness is short-lived
 	a := vh.ParseArgs()
 	res := vh.NewResult(prop, a.Seed, a.Tier)
-	res.Rule = "histories: random policy of a random family (threshold, unanimity, CNF, hierarchical, gate tree with repeated leaves) on 2..maxholders ids (ordinal or sparse/large), dealt by the trusted dealer; then 1..maxlen steps drawn from {refresh 30%, recover a lost share 25%, redistribute to a new family/holder set with leavers and newcomers 45%}, driving quorum = all holders 25% / a strict minimal qualified subset / a strict non-minimal one (two histories of three prefer structures that have strict qualified subsets), every continuing holder outside the driving quorum independently passes its current shard or nil to NewParticipant, trusted anchor 50%; non-trivial = at least one step performed. after each step one observation (reconstruct over a random qualified set through the library's coefficients) and up to 3 mixed-epoch sets (a minimal qualified set split between the previous and the new epoch, same MSP); signing with post-epoch shards on the last step. hjky: every family, honest and with one dealer dealing a non-zero value. deviation: one previous holder re-deals a wrong value consistently and/or broadcasts a wrong previous vector. refused: unqualified driving set."
+	res.Rule = "histories: random policy of a random family (threshold, unanimity, CNF, hierarchical, gate tree with repeated leaves) on 2..maxholders ids (ordinal or sparse/large), dealt by the trusted dealer; then 1..maxlen steps drawn from {refresh 30%, recover a lost share 25%, redistribute to a new family/holder set with leavers and newcomers 45%}, driving quorum = all holders 25% / a strict minimal qualified subset / a strict non-minimal one (two histories of three prefer structures that have strict qualified subsets), every continuing holder outside the driving quorum independently passes its current shard or nil to NewParticipant, trusted anchor 50%; non-trivial = at least one step performed. after each step one observation (reconstruct over a random qualified set through the library's coefficients) and up to 3 mixed-epoch sets (a minimal qualified set split between the previous and the new epoch, same MSP); signing with post-epoch shards on the last step. hjky: every family, honest and with one dealer dealing a non-zero value. deviation: one previous holder re-deals a wrong value consistently and/or broadcasts a wrong previous vector. tampered piece: refresh / recover / redistribute into a non-ideal next structure (CNF of t-of-n, gate trees with repeated leaves: every holder owns 2-3 MSP rows) where one previous holder alters ONE component (first / last / middle, cycling) of the piece for one next holder. refused: unqualified driving set."
 	var only map[string]string
 	if a.Replay != "" {
 		b, err := os.ReadFile(a.Replay)
@@ -1598,16 +1614,16 @@ func main() {
 			return
 		}
 	}
-	nHist, maxLen, maxHolders, nZero, nDev, nRef := 10, 5, 5, 5, 6, 3
+	nHist, maxLen, maxHolders, nZero, nDev, nPiece, nRef := 10, 5, 5, 5, 3, 9, 2
 	if a.Tier == "thorough" {
-		nHist, maxLen, maxHolders, nZero, nDev, nRef = 120, 20, 6, 40, 60, 10
+		nHist, maxLen, maxHolders, nZero, nDev, nPiece, nRef = 120, 20, 6, 40, 36, 72, 10
 	}
 	if a.Search {
-		nHist, maxLen, maxHolders, nZero, nDev, nRef = 60, 8, 6, 30, 60, 10
+		nHist, maxLen, maxHolders, nZero, nDev, nPiece, nRef = 60, 8, 6, 30, 36, 72, 10
 		a.Seed += 7919
 	}
 	if only == nil || only["group"] == "k256" {
-		runGroup(newCtx[*k256.Point, *k256.Scalar]("k256", k256.NewCurve()), a, res, nHist, maxLen, maxHolders, nZero, nDev, nRef, only,
+		runGroup(newCtx[*k256.Point, *k256.Scalar]("k256", k256.NewCurve()), a, res, nHist, maxLen, maxHolders, nZero, nDev, nPiece, nRef, only,
 			func(scheme, label string, msg []byte, orig *mpc.BaseShard[*k256.Point, *k256.Scalar], shards map[uint64]*mpc.BaseShard[*k256.Point, *k256.Scalar], quorum []uint64) string {
 				if scheme == "dkls23" {
 					return signDklsK256(a.Seed, label, msg, orig, shards, quorum)
@@ -1616,7 +1632,7 @@ func main() {
 			})
 	}
 	if (only == nil && a.Tier == "thorough") || (only != nil && only["group"] == "bls12381g1") {
-		runGroup(newCtx[*bls12381.PointG1, *bls12381.Scalar]("bls12381g1", bls12381.NewG1()), a, res, nHist/4, maxLen, maxHolders, nZero/4, nDev/4, nRef/2, only, nil)
+		runGroup(newCtx[*bls12381.PointG1, *bls12381.Scalar]("bls12381g1", bls12381.NewG1()), a, res, nHist/4, maxLen, maxHolders, nZero/4, nDev/4, nPiece/4, nRef/2, only, nil)
 	}
 	res.Write(a.Out)
 }
